@@ -277,6 +277,15 @@ def _spec_rows(ctx, cls_name):
                 continue
             kv = ev.ev(k)
             ctx.require(isinstance(kv, EnumVal) and kv.cls == "MsgType", f"{cls_name}.SPECS key {src(k)} is not a MsgType member")
+            # a row may name a module-level (or class-level) constant holding the pair / factory call
+            for _ in range(3):
+                if isinstance(v, ast.Name):
+                    nv = repo.module_assign(pmod, v.id) or repo.class_attr(ci, v.id)
+                    if nv is None:
+                        break
+                    v = nv
+                else:
+                    break
             rows[kv.name] = v
     add(node)
     return ci, node, rows
@@ -1709,6 +1718,50 @@ def r6(ctx):
             k = st.target.slice
             k = env.get(k.id, k) if isinstance(k, ast.Name) else k
             registered[ap(k) or norm(k)] = ap(st.value) or norm(st.value)
+    # the third-party type_map (type -> handler name), plus the Hippo registrations above
+    tp = ThirdParty()
+    tw = TypeWorld(repo, tp)
+    base_map: Dict[str, str] = {}
+    r_ = tp.lookup("llsd.base", "LLSDBaseFormatter")
+    if r_ and r_[0] == "class":
+        for n_ in ast.walk(r_[2]):
+            if isinstance(n_, ast.Dict):
+                for k_, v_ in zip(n_.keys, n_.values):
+                    if k_ is not None and (ap(v_) or "").startswith("self."):
+                        for t_ in tw.tp_types("llsd.base", k_):
+                            base_map[t_] = ap(v_)[5:]
+    for k_, h_ in registered.items():
+        for t_ in tw.repo_types(lmod, ast.parse(k_, mode="eval").body):
+            base_map[t_] = h_.split(".")[-1]
+    ctx.floor("C12.R6", "third-party type_map entries", len(base_map), 10)
+    for lst in repo.classes.values():
+        for ci in lst:
+            m = ci.methods.get("typeof") if ci.module is lmod else None
+            if m is None:
+                continue
+            listed: List[str] = []
+            for loop in [n_ for n_ in walk(m.node) if isinstance(n_, ast.For)]:
+                it = loop.iter
+                if isinstance(it, (ast.Name, ast.Attribute)):
+                    nm = ap(it) or ""
+                    v = repo.class_attr(ci, nm.split(".")[-1]) if nm.startswith(("self.", "cls.")) else repo.module_assign(lmod, nm)
+                    it = v if v is not None else it
+                if isinstance(it, (ast.Tuple, ast.List)) and any(ap(c_.func) == "isinstance" for c_ in calls(loop)):
+                    for e_ in it.elts:
+                        listed.extend(sorted(tw.repo_types(lmod, e_)))
+            for c_ in calls(m.node):
+                if ap(c_.func) == "isinstance" and len(c_.args) == 2 and not isinstance(c_.args[1], ast.Name):
+                    listed.extend(sorted(tw.repo_types(lmod, c_.args[1])))
+            if not listed:
+                raise AnalysisError(f"C12.R6: {ci.name}.typeof does not test a literal sequence of types: read it")
+            for t_, h_ in sorted(base_map.items()):
+                first = next((s_ for s_ in listed if tw.is_subtype(t_, s_)), None)
+                collapsed = first is not None and first != t_
+                hs = base_map.get(first) if first else None
+                ctx.ob("C12.R6", f"{ci.name}.typeof keeps {t_} on its own handler", not collapsed or hs == h_, m.where,
+                       "" if not collapsed or hs == h_ else
+                       f"{t_} (handler {h_}) is a subclass of the listed {first} and is reported as that type (handler {hs}): the value is "
+                       f"written as the wrong LLSD type")
     tc = repo.cls("TupleCoord", "hippolyzer/lib/base/datatypes.py")
     subs = [c for c in repo.subclasses(tc, strict=True) if c.module is tc.module]
     ctx.floor("C12.R6", "coordinate classes", len(subs), 4)
@@ -1738,12 +1791,48 @@ def r7(ctx):
     classes = [pm.hippo] + repo.subclasses(pm.hippo, strict=True)
     names = {c.name for c in classes}
     n = 0
+    class _TP:
+        def __init__(self, name):
+            self.name = name
+
+    def tp_stateful(mod, func) -> Optional[str]:
+        """name of a third-party llsd parser class (its parse() stores on self) constructed by `func(...)`"""
+        p_ = ap(func) or ""
+        if not p_ or "(" in p_ or "[" in p_:
+            return None
+        root = p_.split(".")[0]
+        tgt = mod.imports.get(root, "")
+        full = tgt + p_[len(root):] if tgt else ""
+        if not full.startswith("llsd"):
+            return None
+        modname, _, cname = full.rpartition(".")
+        if modname != "llsd" and not os.path.exists(os.path.join(TP_PKG, modname.split(".", 1)[-1] + ".py")):
+            return None
+        r_ = tp.lookup(modname, cname) if modname == "llsd" or modname.startswith("llsd.") else None
+        seen_ = 0
+        while r_ and r_[0] == "class" and seen_ < 5:
+            for st_ in r_[2].body:
+                if isinstance(st_, FUNC_TYPES) and st_.name == "parse":
+                    if any(isinstance(n_, ast.Assign) and any((ap(t_) or "").startswith("self.") for t_ in n_.targets)
+                           for n_ in ast.walk(st_)):
+                        return cname
+                    return None
+            nxt = None
+            for b_ in r_[2].bases:
+                if isinstance(b_, ast.Name):
+                    nxt = tp.lookup(r_[1], b_.id)
+            r_ = nxt
+            seen_ += 1
+        return None
     for mod in repo.modules.values():
         for c in calls(mod.tree, into_defs=True):
-            if not (isinstance(c.func, (ast.Name, ast.Attribute)) and (ap(c.func) or "").split(".")[-1] in names):
+            if not isinstance(c.func, (ast.Name, ast.Attribute)):
                 continue
-            ci = repo.resolve_class((ap(c.func) or "").split(".")[-1], mod)
-            if ci not in classes:
+            tpn = tp_stateful(mod, c.func)
+            if tpn is None and (ap(c.func) or "").split(".")[-1] not in names:
+                continue
+            ci = repo.resolve_class((ap(c.func) or "").split(".")[-1], mod) if tpn is None else _TP(tpn)
+            if tpn is None and ci not in classes:
                 continue
             n += 1
             from ..core import ancestors
